@@ -73,7 +73,7 @@ def build_harness(ctx, race=False):
         cmd.append('-race')
     if os.environ.get('VERIF_COVER'):
         # tools/coverage.sh only: statement coverage of the library under the conformance harness (GOCOVERDIR collects it)
-        cmd += ['-cover', '-coverpkg=github.com/asticode/go-astits']
+        cmd += ['-cover', '-coverpkg=github.com/asticode/go-astits,verif/harness']
     out = ctx.harness + ('-race' if race else '')
     cmd += ['-o', out, '.']
     p = subprocess.run(cmd, cwd=src, env=GOENV, capture_output=True, text=True)
@@ -92,7 +92,9 @@ def tlc(ctx, spec, cfg_text, name, workers=1, timeout=900, heap='4g', extra=()):
         f.write(cfg_text)
     out = ctx.path('%s_%d.out' % (name, k))
     md = ctx.path('md_%s_%d' % (name, k))
-    cmd = ['java', '-XX:+UseParallelGC', '-Xmx' + heap, '-Xss64m', '-cp', JAR, 'tlc2.TLC', '-workers', str(workers),
+    jtmp = ctx.path('jtmp')         # TLC leaves a tlc-<n> directory per run in java.io.tmpdir: keep them inside the work directory
+    os.makedirs(jtmp, exist_ok=True)
+    cmd = ['java', '-XX:+UseParallelGC', '-Xmx' + heap, '-Xss64m', '-Djava.io.tmpdir=' + jtmp, '-cp', JAR, 'tlc2.TLC', '-workers', str(workers),
            '-metadir', md, '-config', cfg] + list(extra) + [os.path.join(ctx.specdir, spec + '.tla')]
     with open(out, 'w') as fo:
         try:
